@@ -303,7 +303,7 @@ def run_case(case):
     # de-duplication helpers
     n = int(rng.choice([1, 2, 3, 6, 30, 200]))
     mode = int(rng.integers(0, 5))
-    kind = ["i8", "f8", "S4", "i2", "U3"][int(rng.integers(0, 5))]
+    kind = ["i8", "f8", "S4", "i2", "U3", "i1", "i4", "u2", "u8"][int(rng.integers(0, 9))]
     if mode == 0:
         base = np.arange(n)                        # all distinct
         rng.shuffle(base)
@@ -315,6 +315,18 @@ def run_case(case):
         base[0] = base.max() + 1
     if mode == 4 and n > 1:                         # first element the minimum
         base[0] = base.min()
+    if kind not in ("S4", "U3", "f8") and rng.random() < .3:
+        # the whole range of the integer type: differences of sorted neighbours exceed the type's maximum
+        ii = np.iinfo(kind)
+        pool = np.array([ii.min, ii.min + 1, ii.min // 2, -1 if ii.min < 0 else 1, 0, 1, ii.max // 2, ii.max - 1, ii.max], dtype=kind)
+        arr = rng.choice(pool, size=n)
+        if fam == "unique":
+            probe.attempt(nu.unique, arr)
+            probe.attempt(nu.unique, arr, values=True)
+        else:
+            flag = rng.integers(0, 4, size=n)
+            probe.attempt(nu.rem_dup, arr, flag)
+        return
     if kind in ("S4", "U3"):
         arr = np.array(["v%02d" % v for v in base], dtype=kind)
     elif kind == "f8":
